@@ -193,3 +193,150 @@ def scale_in_patch(draw, st, nf, walls, lo=1.0, hi=1000.0, margin=1.05):
         a, b = b * 0.9, b
     u = draw(st.floats(0, 1))
     return float(math.exp(math.log(a) + u * (math.log(b) - math.log(a))))
+
+
+def lo_alpha(alpha_low, mu_low, mu, nf=3):
+    """LO running from mu_low to mu (linear scales) — only used to place generated couplings sensibly."""
+    b0 = 11.0 - 2.0 / 3.0 * nf
+    return alpha_low / (1.0 + b0 * alpha_low / (4 * math.pi) * math.log(mu**2 / mu_low**2))
+
+
+def walls_of(case):
+    c = full(case)
+    return [m * r for m, r in zip(c["masses"], c["ratios"])]
+
+
+def natural_nf(mu, walls):
+    return 3 + sum(1 for w in walls if mu >= w)
+
+
+def st_tiny_card(
+    orders=(1, 2, 3, 4),
+    qed=(0,),
+    methods=tuple(METHODS),
+    n_extra_targets=(0, 1),
+    target_is_init=False,
+    sv=(None,),
+    flags=((False, False),),
+    grid_pts=(2, 4),
+    weird_nf=0.25,
+    nf0_choices=(3, 4, 5, 6),
+    max_scale=300.0,
+    iters=(1, 4),
+    ratios_unit=False,
+):
+    """General tiny runcard strategy (JSON dict accepted by ``cards``).
+
+    Scales: matching scales (mass*ratio) are constructed sorted (>= ~1 GeV); each evolution point is a
+    (scale, nf) pair, usually inside its natural patch, sometimes (``weird_nf``) with another nf – both are
+    valid inputs (paths are defined by nf, DESIGN C19).  alpha_s is fixed at the lowest scale appearing on
+    any path (0.1–0.35) and transported to the reference point with the LO formula, so that the coupling stays
+    perturbative everywhere.  Downward matchings get an explicit inversion method.
+    """
+    from hypothesis import strategies as st
+
+    @st.composite
+    def build(draw):
+        qcd = draw(st.sampled_from(orders))
+        qe = draw(st.sampled_from(qed))
+        pol, tl = draw(st.sampled_from(flags))
+        method = draw(st.sampled_from(methods))
+        # thresholds
+        rc = 1.0 if ratios_unit else draw(st.floats(0.75, 2.0))
+        mc = draw(st.floats(1.3, 1.8))
+        wc = mc * rc
+        mb = draw(st.floats(4.0, 5.5))
+        rb = 1.0 if ratios_unit else draw(st.floats(max(0.5, 1.2 * wc / mb), 2.0))
+        mt = draw(st.floats(150.0, 180.0))
+        rt = 1.0 if ratios_unit else draw(st.floats(0.5, 2.0))
+        walls = [wc, mb * rb, mt * rt]
+
+        def point(nf_choices=(3, 4, 5, 6)):
+            if draw(st.floats(0, 1)) < weird_nf:
+                nf = draw(st.sampled_from(nf_choices))
+                mu = math.exp(draw(st.floats(math.log(1.0), math.log(max_scale))))
+            else:
+                nf = draw(st.sampled_from(nf_choices))
+                mu = scale_in_patch(draw, st, nf, walls, lo=1.0, hi=max_scale)
+            return [float(mu), int(nf)]
+
+        init = point(nf0_choices)
+        targets = []
+        if target_is_init:
+            targets.append(list(init))
+        nextra = draw(st.integers(*n_extra_targets))
+        for _ in range(nextra):
+            targets.append(point())
+        if not targets:
+            targets.append(point())
+        # dedupe evolution points
+        seen, mugrid = set(), []
+        for t in targets:
+            if (t[0], t[1]) not in seen:
+                seen.add((t[0], t[1]))
+                mugrid.append(t)
+        # lowest scale on any path: the points and the walls between their nf's
+        scales = [init[0]] + [t[0] for t in mugrid]
+        for t in mugrid:
+            lo_nf, hi_nf = sorted((init[1], t[1]))
+            for nfw in range(lo_nf, hi_nf):
+                scales.append(walls[nfw - 3])
+        ref_is_init = draw(st.booleans())
+        if ref_is_init:
+            ref = list(init)
+        else:
+            mu_ref = math.exp(draw(st.floats(math.log(2.0), math.log(200.0))))
+            ref = [float(mu_ref), natural_nf(mu_ref, walls)]
+        for nfw in range(min(ref[1], init[1]), max(ref[1], init[1])):
+            scales.append(walls[nfw - 3])
+        scales.append(ref[0])
+        mu_low = min(scales)
+        alpha_low = draw(st.floats(0.1, 0.35))
+        alphas = lo_alpha(alpha_low, mu_low, ref[0])
+        xs, deg = draw(st_xgrid(*grid_pts))
+        svm = draw(st.sampled_from(sv))
+        xif = 1.0
+        if svm is not None:
+            xif = draw(st.sampled_from([1.0, 0.5, 2.0, 0.7071067811865476, 1.4142135623730951])) if draw(
+                st.booleans()
+            ) else draw(st.floats(0.5, 2.0))
+        downward = any(t[1] < init[1] for t in mugrid)
+        inv = draw(st.sampled_from(["exact", "expanded"])) if downward else draw(
+            st.sampled_from([None, "exact", "expanded"])
+        )
+        case = dict(
+            order=[qcd, qe],
+            alphas=float(alphas),
+            alphaem=draw(st.floats(0.005, 0.01)) if qe > 0 else 0.007496252,
+            ref=ref,
+            em_running=draw(st.booleans()) if qe > 0 else False,
+            masses=[mc, mb, mt],
+            ratios=[rc, rb, rt],
+            xif=float(xif),
+            init=init,
+            mugrid=mugrid,
+            xgrid=xs,
+            deg=deg,
+            method=method,
+            iters=draw(st.integers(*iters)),
+            max_order=[draw(st.integers(2, 6)), qe],
+            sv=svm,
+            inv=inv,
+            pol=pol,
+            tl=tl,
+        )
+        if qcd == 4:
+            case["n3lo"] = [draw(st.integers(0, 2)) for _ in range(7)] if draw(st.booleans()) else [0] * 7
+            case["use_fhmruvv"] = draw(st.booleans())
+        return case
+
+    return build()
+
+
+def path_blocks(case):
+    """Matched path (list of repo Segment/Matching) for every target, using the repo Atlas."""
+    from eko.runner import commons
+
+    th, op = cards(case)
+    atlas = commons.atlas(th, op)
+    return {tuple(ep): atlas.matched_path(ep) for ep in op.evolgrid}
